@@ -136,17 +136,18 @@ def ftrie_case(rng, F, nops, recon=True):
 
 def fmap_case(rng, F, nops, kind):
     ops = []
-    # FilterMap<Trie>: getTrie().size() is Trie::size(), which is only called on shapes where the
-    # unrepaired code is defined (the defect itself is exercised by the "trie" cases)
-    wz = 0 if (kind == "fmT" and bad_shape(F)) else 1
+    # every shape: getTrie().size() goes through Trie::size() (repaired in /repo, 817ad81)
+    wz = 1
     for _ in range(nops):
-        k = rng.choices(["i", "F", "f", "p", "z"], [6, 4, 2 if kind == "fmT" else 0, 3 if kind == "fmT" else 0, wz])[0]
+        k = rng.choices(["i", "F", "f", "p", "z"], [6, 3, 4 if kind == "fmT" else 0, 3 if kind == "fmT" else 0, wz])[0]
         if k == "i": ops.append("i " + PF(rand_pf(rng, F, allow_empty=False)))
         elif k == "F":
             ln = len(F) if kind == "fmT" or rng.random() < 0.6 else rng.randint(0, len(F))
             ops.append("F " + L([rng.randrange(F[j]) for j in range(ln)]))
         elif k == "f":
-            off = rng.randrange(len(F)); ln = rng.randint(1, len(F) - off)
+            # offsets 0 .. len(F)-1, non-zero offsets favoured (offset 0 coincides with filter(f))
+            off = rng.randrange(1, len(F)) if rng.random() < 0.7 else 0
+            ln = rng.randint(1, len(F) - off)
             ops.append("f %s %d" % (L([rng.randrange(F[off + j]) for j in range(ln)]), off))
         elif k == "p": ops.append("p " + PF(rand_pf(rng, F, allow_empty=False)))
         else: ops.append("z")
@@ -167,18 +168,16 @@ def gen(rng, tier):
     for F in shapes:
         F = list(F)
         nops = rng.choice([5, 12, 25, maxops]) if tier != "thorough" else rng.choice([10, 40, 120, maxops])
-        # On the unrepaired tree every size/getAllIds call on a shape whose first factor is not the
-        # smallest, and every erase(id, pf) of a non-stored id, aborts the case (known findings); the
-        # runner tolerates at most 200 aborts per batch, so those calls are kept to a minority of cases.
-        stale = rng.random() < 0.04
-        allids = (not bad_shape(F)) or rng.random() < 0.15
+        # (both defects these calls used to hit are fixed in /repo: 817ad81, 954bcff)
+        stale = rng.random() < 0.3
+        allids = True
         out.append(trie_case(rng, F, nops, stale=stale, allids=allids))
     nf = {"quick": 140, "thorough": len(ALL_SHAPES), "search": 200}[tier]
     fshapes = list(ALL_SHAPES) if tier == "thorough" else [rng.choice(ALL_SHAPES) for _ in range(nf)]
     for F in fshapes:
         F = list(F)
         out.append(ftrie_case(rng, F, rng.choice([6, 15, 30, maxops])))
-    for _ in range({"quick": 40, "thorough": 200, "search": 60}[tier]):
+    for _ in range({"quick": 80, "thorough": 400, "search": 120}[tier]):
         F = list(rng.choice(ALL_SHAPES))
         kind = rng.choice(["fmT", "fmF"])
         out.append(fmap_case(rng, F, rng.choice([8, 20, 40]), kind))
